@@ -40,6 +40,18 @@ Theorem C01_listen_worker_realises_spec : forall svc chunks fuel, (2 * length ch
 Proof. exact src_worker_spec. Qed.
 Print Assumptions C01_listen_worker_realises_spec.
 
+(* every reply reaches the peer whole also through a writer that takes only part of each buffer: the reply writers hand
+   their bytes over with write_all (regenerated from reply_struct / reply_parameters and the helpers they call) *)
+From VL Require Import Writer.
+From VLG Require Import WireGen.
+Theorem C01_replies_survive_short_writes : forall (accept : nat -> list N -> nat),
+  (forall k b, b <> [] -> (1 <= accept k b <= length b)%nat) -> forall b k, deliver accept (if reply_write_primitive_is_write_all then WriteAll else WriteOnce) k b = b.
+Proof.
+  intros accept P b k. assert (E : reply_write_primitive_is_write_all = true) by (vm_compute; reflexivity). rewrite E.
+  exact (write_all_delivers_everything accept P b k).
+Qed.
+Print Assumptions C01_replies_survive_short_writes.
+
 (* tie: the functions this property's model describes by hand (not by translation) still have the pinned text; an
    edit to one of them breaks this obligation and sends the check searching for a failing input *)
 From VLG Require Import ShapeGen.
